@@ -200,32 +200,45 @@ Proof. vm_compute. repeat split. Qed.
    Flocq: its agreement with the hardware and glibc is established by the correspondence harness
    only (every rung bound +-3, dense random n), and the label in docs/C17.md says so. *)
 
-(* F-9: the faithful model falsifies the width claim of formatSI *)
-Theorem C17_si_width_refuted : exists n, 0 <= n < 2 ^ 63 /\ ~ (length (formatSI n) <= 5)%nat.
-Proof. exists 99949999999999992. exact si_width_witness. Qed.
-Print Assumptions C17_si_width_refuted.
+(* F-9 (formatSI returned "100.0P", 6 characters, for 99949999999999992..99949999999999999) is
+   fixed in the source (commit af480e4: that rung is now chosen on the double); the regenerated
+   ladder carries the OnDouble test and the former refutation C17_si_width_refuted is replaced by
+   the positive statements below.  If the fix is lost, f9_fixed / si_rung_windows no longer check.
 
-(* What is proved: the plain rung for all n (below 1000 / 1024 the text is the decimal numeral),
-   and the width at BOTH ENDS of every rung of the regenerated ladders (last n below and first n
-   at each bound, 0 and 2^63-1), computed in the exact model; the only failing end is
-   n = 99949999999999999 (F-9).  MISSING for the full theorem on the remaining n: the per-rung
-   monotonicity of the rendered value in n (monotonicity of round-to-nearest through to_double,
-   div_double, fixed_scaled) and the validation of these three functions against Flocq's
-   binary64. *)
+   What is proved: (1) the plain rung for ALL n (below 1000 / 1024 the text is the decimal
+   numeral); (2) for EVERY bound of the regenerated ladders, the width for all n within +-1100 of
+   the bound (a window wider than twice the spacing of doubles below 2^63, so it contains both ends
+   of the two adjacent rungs also where the test is made on double(n)), that the rung change does
+   happen inside the window, and n = 0, 2^63-1; (3) the eight F-9 integers print "100P" and their
+   lower neighbour "99.9P".  All computed in the exact integer model of the binary64 arithmetic.
+   MISSING for the full theorem (forall 0 <= n < 2^63): the per-rung monotonicity of the rendered
+   value in n (monotonicity of round-to-nearest through to_double, div_double, fixed_scaled), which
+   reduces the interior of a rung to its two ends, and the validation of these three functions
+   against Flocq's binary64 (until then their agreement with the hardware/glibc is
+   correspondence-only). *)
 Theorem C17_si_width_partial :
   (forall n, 0 <= n < 1000 -> formatSI n = convert n /\ (length (formatSI n) <= 3)%nat) /\
-  forallb si_end_ok (rung_starts si_ladder) = true /\
-  (length (formatSI (2 ^ 63 - 1)) <=? 5)%nat = true /\ (length (formatSI 0) <=? 5)%nat = true.
-Proof. exact (conj formatSI_small si_rung_ends). Qed.
+  (forallb (window_ok formatSI 5) (rung_bounds si_ladder) = true /\ switches si_ladder si_ladder = true /\
+   (length (formatSI (2 ^ 63 - 1)) <=? 5)%nat = true /\ (length (formatSI 0) <=? 5)%nat = true) /\
+  (forallb (fun n => match formatSI n with [x31; x30; x30; x50] => true | _ => false end) f9_range = true /\
+   formatSI 99949999999999991 = [x39; x39; x2e; x39; x50]).
+Proof. exact (conj formatSI_small (conj si_rung_windows f9_fixed)). Qed.
 Print Assumptions C17_si_width_partial.
 
 Theorem C17_iec_width_partial :
   (forall n, 0 <= n < 1024 -> formatIEC n = convert n /\ (length (formatIEC n) <= 4)%nat) /\
-  forallb iec_end_ok (rung_starts iec_ladder) = true /\
+  forallb (window_ok formatIEC 6) (rung_bounds iec_ladder) = true /\ switches iec_ladder iec_ladder = true /\
   (length (formatIEC (2 ^ 63 - 1)) <=? 6)%nat = true /\ (length (formatIEC 0) <=? 6)%nat = true.
-Proof. exact (conj formatIEC_small iec_rung_ends). Qed.
+Proof. exact (conj formatIEC_small iec_rung_windows). Qed.
 Print Assumptions C17_iec_width_partial.
 
+(* how a window statement is used: any n within 1100 of a regenerated bound *)
+Theorem C17_window_use : forall f w c n, window_ok f w c = true ->
+  0 <= n < 2 ^ 63 -> c - 1100 <= n <= c + 1100 -> (length (f n) <= w)%nat.
+Proof. exact window_ok_use. Qed.
+Print Assumptions C17_window_use.
+
 Example ex_si : formatSI 12345 = [x31; x32; x2e; x33; x6b] /\ formatIEC 1048064 = [x31; x2e; x30; x30; x4d; x69] /\
-                length (rung_starts si_ladder) = 16%nat /\ length (rung_starts iec_ladder) = 17%nat.
+                length (rung_bounds si_ladder) = 16%nat /\ length (rung_bounds iec_ladder) = 17%nat /\
+                length window = 2201%nat.
 Proof. vm_compute. repeat split. Qed.
